@@ -58,6 +58,13 @@ type FuncContract struct {
 	FnType         bool // contract for a function type / interface method
 	assignKeysMemo [][]string
 	RecAssumed     string
+	Defines        string
+	AtCalls        []AtCall
+}
+
+type AtCall struct {
+	Match string
+	C     Clause
 }
 
 type SpecDef struct {
@@ -104,7 +111,7 @@ func NewContracts() *Contracts {
 var clauseKeywords = map[string]bool{
 	"props": true, "requires": true, "ensures": true, "assigns": true, "pure": true, "trusted": true,
 	"assumed": true, "terminates": true, "loop": true, "measure": true, "maypanic": true, "note": true,
-	"let": true, "model": true, "recursion_assumed": true, "assume_nopanic": true,
+	"let": true, "model": true, "recursion_assumed": true, "assume_nopanic": true, "defines": true, "at_call": true,
 }
 
 // normaliseFuncKey turns "(*Cursor).Pos" into "(*pkgpath.Cursor).Pos" and "Name" into "pkgpath.Name".
@@ -417,6 +424,20 @@ func (cs *Contracts) LoadFile(path, pkgPath string) error {
 				cs.AssumedList = append(cs.AssumedList, fmt.Sprintf("assumed %s: %s", cur.Key, rest))
 			case "terminates":
 				cur.Terminates = true
+			case "at_call":
+				// at_call <substring of callee name> <expr>: expr must hold just before every such call
+				f := strings.Fields(rest)
+				if len(f) < 2 {
+					return fail(fmt.Errorf("at_call <callee> <expr>"))
+				}
+				c, err := mkClause(strings.TrimSpace(rest[len(f[0]):]))
+				if err != nil {
+					return fail(err)
+				}
+				cur.AtCalls = append(cur.AtCalls, AtCall{Match: strings.TrimSuffix(f[0], ":"), C: c})
+			case "defines":
+				// the result of this pure, deterministic function is named by an uninterpreted spec function
+				cur.Defines = strings.TrimSpace(rest)
 			case "recursion_assumed":
 				cur.RecAssumed = rest
 				cs.AssumedList = append(cs.AssumedList, fmt.Sprintf("recursion_assumed %s: %s", cur.Key, rest))
